@@ -95,14 +95,15 @@ class Frame:
 
 
 class Oblig:
-    __slots__ = ("name", "hyps", "goal", "kind", "note")
+    __slots__ = ("name", "hyps", "goal", "kind", "note", "ctx")
 
-    def __init__(self, name, hyps, goal, kind, note=""):
+    def __init__(self, name, hyps, goal, kind, note="", ctx=None):
         self.name = name
         self.hyps = hyps
         self.goal = goal
         self.kind = kind
         self.note = note
+        self.ctx = ctx  # replay context of the carrier's own proof (pyvc/cmreplay.py): setup values, predicted result
 
 
 def _simp(z):
@@ -277,7 +278,7 @@ class Engine:
         hyps = list(self.pc)
         for flt in HYP_FILTERS:  # an extension may DROP hypotheses that cannot matter for this goal (fewer hypotheses: always sound)
             hyps = flt(self, hyps, goal)
-        self.obligs.append(Oblig(name, hyps, goal, kind, note))
+        self.obligs.append(Oblig(name, hyps, goal, kind, note, getattr(self, "replay_ctx", None)))
         if not z3.is_false(g):  # a goal that is literally False (a forbidden write, an unexpected exception) is reported, not assumed:
             self.pc.append(goal)  # the rest of the path is then still checked against a consistent path condition
 
